@@ -40,6 +40,13 @@ def discharge(hyps, goal, timeout_ms=None, want_model=False, portfolio=True):
     if z3.is_true(g):
         return Result("proved", "simplifier", 0.0)
     t0 = time.time()
+    # first attempt: E-matching only (all proofs here are instantiation proofs; MBQI only slows them)
+    s = _solver(hyps, goal, min(timeout_ms, 10000))
+    s.set("smt.mbqi", False)
+    r = s.check()
+    if r == z3.unsat:
+        return Result("proved", "z3-5.1", time.time() - t0)
+    # second attempt: default configuration (MBQI on: can also answer sat with a model)
     s = _solver(hyps, goal, timeout_ms)
     r = s.check()
     dt = time.time() - t0
